@@ -16,6 +16,8 @@ READS = [
     [dict(op="RM", k=0), dict(op="JA", k=2), dict(op="NR", k=0)],
     [dict(op="JA", k=2, r=1), dict(op="NR", k=0)],
     [dict(op="JA", k=3, r=2), dict(op="NR", k=0)],
+    # messages abandoned part-way (with a read limit equal to the largest message: all are within it)
+    [dict(op="NR", k=0), dict(op="RD", k=1), dict(op="NR", k=0), dict(op="NR", k=0), dict(op="RD", k=3), dict(op="RM", k=0), dict(op="RM", k=0), dict(op="RM", k=0)],
     [dict(op="RJ", k=0)] * 8,
     [dict(op="RJ", k=0), dict(op="RM", k=0), dict(op="NR", k=0), dict(op="RD", k=3)] * 3,
 ]
@@ -58,11 +60,11 @@ def run_pair_check(pid, tier, mcs, max_progs, mult=1, assumptions=()):
     conc = []
     for w in wconc:
         total_bytes = sum(o.get("n", 0) for o in w["ops"])
-        reads = rnd.choice(READS if total_bytes <= 3000 else READS[:6] + READS[10:])
+        reads = rnd.choice(READS if total_bytes <= 3000 else READS[:6] + READS[11:])
         chunk = rnd.choice(["whole", "half", "frame", "hdr", "rand"] + (["byte"] if total_bytes <= 2000 else []))
         wid = w["id"]
         w2 = dict(w); w2["id"] = wid + "/w"
-        conc.append(dict(id=wid, w=w2, rbuf=rnd.choice([0, 1, 125, 126, 256, 4096, 65536]), chunk=chunk, reads=reads, seed=w["seed"]))
+        conc.append(dict(id=wid, w=w2, limit=(rnd.random() < 0.3), rbuf=rnd.choice([0, 1, 125, 126, 256, 4096, 65536]), chunk=chunk, reads=reads, seed=w["seed"]))
     byid = {p["id"]: p for p in conc}
     name = "%s-%s" % (pid, tier)
     core.rundir(name)
